@@ -387,6 +387,9 @@ func (e *Engine) returnFrom(st *State, res Value) {
 		// a function with pending defers always reaches RunDefers before Return in SSA
 	}
 	st.frames = st.frames[:len(st.frames)-1]
+	if fr.ret == retInit {
+		e.snapshotInit(st, fr)
+	}
 	e.finishCall(st, fr.ret, res)
 }
 
